@@ -394,7 +394,7 @@ def h_de(s, iters, minimize, strategy, init=False, stop=0, pop=4, knobs=None):
     s.observe("objective", res.objective)
 
 
-def h_pso(s, iters, minimize, init=False, decay=False, stop=0, knobs=None):
+def h_pso(s, iters, minimize, init=False, decay=False, stop=0, knobs=None, n=3):
     mod = importlib.import_module("solvor.particle_swarm")
     bounds = [(-1.0, 2.0), (0.0, 1.0)]
     starts = [[5.0, 0.5], [0.25, 0.25]] if init else []
@@ -412,7 +412,7 @@ def h_pso(s, iters, minimize, init=False, decay=False, stop=0, knobs=None):
             kw["initial_positions"] = [list(p) for p in starts]
         if decay:
             kw["inertia_decay"] = 0.25
-        res = mod.particle_swarm(obj, bounds, minimize=mn, n_particles=3, max_iter=iters, seed=2, **kw)
+        res = mod.particle_swarm(obj, bounds, minimize=mn, n_particles=n, max_iter=iters, seed=2, **kw)
         return res, obj
 
     if minimize:
@@ -575,9 +575,14 @@ def items(tier, rng):
         for strategy in ("rand/1", "best/1"):
             add("de", "h_de", {"iters": 1 + x, "minimize": mn, "strategy": strategy})
             add("de_init", "h_de", {"iters": 1 + x, "minimize": mn, "strategy": strategy, "init": True})
+        for sp in (1, 2, 3):  # population_size below the internal minimum of 4 (the solver pads it)
+            add("de_smallpop", "h_de", {"iters": 1, "minimize": mn, "strategy": "rand/1", "pop": sp, "init": sp == 3})
         add("de_2diffs", "h_de", {"iters": 1, "minimize": mn, "strategy": "rand/2", "pop": 6})
         add("de_stop", "h_de", {"iters": 3, "minimize": mn, "strategy": "best/1", "init": True, "stop": 1}, mp=150 if q else 1500)
         add("pso", "h_pso", {"iters": 1 + x, "minimize": mn})
+        for sn in (1, 2):  # very small swarms
+            add("pso_small", "h_pso", {"iters": 2, "minimize": mn, "n": sn, "init": sn == 2})
+        add("evolve_small", "h_evolve", {"pop_size": 2, "gens": 2, "minimize": mn, "elite": 1, "adaptive": False})
         add("pso_init", "h_pso", {"iters": 1 + x, "minimize": mn, "init": True, "decay": True})
         add("pso_stop", "h_pso", {"iters": 3, "minimize": mn, "init": True, "stop": 2}, mp=150 if q else 1500)
         for dim in (1, 2):
